@@ -4,7 +4,7 @@ from harness import gen_text as G
 
 class C18(Prop):
     id = 'C18'
-    theorems = ['C17.hist_indent', 'C17.toListFlat_breakFree', 'C18.step_spec', 'C18.length_preserved', 'C18.plain_text_preserved',
+    theorems = ['C17.hist_indent', 'C17.toListFlat_breakFree', 'C17.step2_frame', 'C18.step_spec', 'C18.length_preserved', 'C18.plain_text_preserved',
                 'C18.no_trailing_ws_introduced', 'C18.bullet_width', 'C18.header_untouched',
                 'C18.repeated_is_composition', 'C18.to_str_agrees']
     proof_modules = ['DznProofs.C18', 'DznProofs.C17Hist']
@@ -43,6 +43,8 @@ class C18(Prop):
         yield 'to_str', b
         yield 'tb.indent', c
         yield 'tb.hist', [G.gen_hist(rng) for _ in range(n // 2)]
+        # blocks handed to one another (one block as another's header): indenting one never shows in another
+        yield 'tb.hist2', [G.gen_hist2(rng) for _ in range(n // 4)]
 
     def impl(self, case):
         return G.run_text_op(case)
